@@ -4,7 +4,7 @@ ENTRY = {'coq_dir': 'C20',
  'cases': {'quick': 4000, 'thorough': 40000},
  'consts': ['BITSWAP_MAX_MESSAGE_SIZE', 'BITSWAP_MAX_BATCH_SIZE', 'BITSWAP_EMPTY_MESSAGE_SIZE'],
  'nontrivial_min_trace': 6,
- 'rule': 'three seeded case streams, mixed 50/46/4: (1) receiving — 1-6 (thorough 1-12) payload entries per case, prefixes built from '
+ 'rule': 'five seeded case streams, mixed 35/30/4/23/8: (1) receiving — 1-6 (thorough 1-12) payload entries per case, prefixes built from '
          'versions {0,1,2,3,127,128,2^64-1}, codecs {raw,dag-pb,...,2^64-1}, all 12 compiled-in hash functions plus 8 unsupported codes, '
          'multihash lengths around the u8 limit, then byte-level mutations (truncation, trailing bytes, non-minimal and ten-byte varints, '
          'bit flips, empty prefix); payloads of 0 B-70 KB (1 MiB thorough) from a pool of 40 ids so that one prefix meets different data; '
@@ -14,27 +14,53 @@ ENTRY = {'coq_dir': 'C20',
          'limits with MiB-sized blocks; every batch of the real extract_next_batch, the encoded length of the real blocks_message and its '
          're-decoded (prefix bytes, data) entries are compared with the model; (3) end to end — two litep2p nodes over TCP loopback, the '
          'real send_response on one side and on_message_received on the other with the shipped limits: the blocks of every '
-         "BitswapEvent::Response are compared with the model's messages; non-trivial = trace of >= 6 numbers; distinct = distinct (case, "
-         'trace) pairs',
+         "BitswapEvent::Response are compared with the model's messages; (4) the real Bitswap::run event loop polled by hand on a "
+         'harness-fed TransportService with three connected peers and in-memory substreams, 3-20 (thorough 3-40) operations per case: '
+         'inbound substreams opened and replaced; frames encoded by a protobuf writer of the harness carrying wantlists (valid CIDv0/v1 '
+         'with supported and unsupported hash codes, truncated/overlong/non-minimal/garbled CID bytes, trailing bytes, cancel and '
+         'sendDontHave flags, want types {0,1,2,5,-1}), payload entries as in stream 1 and presences (types {0,1,2,-1}), delivered whole '
+         'or in two pieces; substreams ended by a frame that is not protobuf, a frame cut anywhere then closed, an oversize or malformed '
+         'length prefix, a clean close or a reset; BitswapHandle::send_request / send_response (presences and blocks mixed, 4 B-2 MiB+1) '
+         'queued, written to substreams that take everything, stall after a byte budget (the paused tokio clock is advanced past '
+         'WRITE_TIMEOUT), fail after a byte budget or cannot be opened; after every operation the BitswapEvents and every byte written '
+         '(complete frames decoded again with the crate\'s prost schema: wantlist entries, presences, block prefixes and data, message '
+         'lengths; and the length of an incomplete frame) are compared with the model; (5) presence batching — 0-60 (thorough 0-300) '
+         'presences with limits {0..2^40}: every batch of the real extract_next_presence_batch, the length of the real presences_message '
+         'and its decoded entries; non-trivial = trace of >= 6 numbers; distinct = distinct (case, trace) pairs',
  'trusted_base': ['hash functions are abstract in the theorems (a function code -> data -> option digest); in the runs the digests are '
-                  "computed by the harness with multihash-codetable's Code::digest, outside block_to_response",
-                  'the crates unsigned-varint, cid, multihash, prost are modelled by hand (varint codec, CIDv0 rules, 64-byte limit, '
-                  'protobuf length arithmetic) and diffed on the generated inputs only',
+                  "computed by the harness with multihash-codetable's Code::digest (and with Python's hashlib for the stored corpus), "
+                  'outside block_to_response',
+                  'the crates unsigned-varint, cid, multihash, prost are modelled by hand (varint codec, Cid::to_bytes/read_bytes, CIDv0 '
+                  'rules, 64-byte limit, protobuf length arithmetic) and diffed on the generated inputs only',
                   'usize arithmetic is treated as unbounded',
-                  'the substream, codec and transport under send_response are exercised only by the end-to-end stream (TCP loopback), they '
-                  'are not modelled'],
+                  'the event loop is observed through its events and the bytes it writes; its maps (pending_outbound, outbound, inbound) '
+                  'are modelled for connected peers only: dialing, connection close and open_substream failures of the service are not',
+                  'tokio (paused clock, select!), the TransportService and the unsigned-varint framing of Substream are exercised, not '
+                  'modelled: an inbound substream is a sequence of decodable frames ended by one bad item',
+                  'the TCP/noise/yamux stack under the end-to-end stream is not modelled'],
  'level_text': 'Proof: for every prefix byte string, payload and family of hash functions the block delivered by block_to_response is the '
                "received payload paired with the CID recomputed from it (digest under the prefix's hash code, prefix's version and codec); "
                'malformed, trailing-byte, unsupported-version/length and uncomputable prefixes are dropped and honest blocks are accepted '
-               '(varint/prefix codec round trip proved). For every queue, size mix and pair of limits the messages written by '
-               'send_response are non-empty, within the data limit and the encoded-size limit, and concatenated they are exactly the '
-               'blocks that fit a message, once and in order; the loop terminates; with the shipped constants a block fits iff its data is '
-               '<= MAX_BATCH_SIZE. The model is tied to bitswap/mod.rs by per-block, per-batch and per-message differential runs and an '
-               'end-to-end run.',
- 'level_note': 'Holds for the tree with the `fix:` commit (F-C20a: batches were bounded by data bytes only, so many tiny blocks made one '
-               'over-long message that was dropped whole; C20_payload_bound_insufficient proves the old bound cannot work, the witness in '
-               'corpus/C20 must now pass). Trusted: Coq kernel, extraction, harness and hooks; hash functions abstract; presences '
-               '(presences_message is never split) and wantlist requests are not modelled.',
+               '(varint, prefix and CID byte codecs round trip). For every session (any requests, any peers, any number and order of '
+               'messages) every block handed to the user hashes to its CID; an inbound substream delivers the events of its complete '
+               'decodable frames and nothing from whatever ends it; a write that stalls or fails leaves complete frames and a piece of one, '
+               'of which a receiver delivers the complete ones only. Wantlists: what send_request writes is what the peer reports; '
+               'entries are judged one by one (invalid CID or want type dropped, the rest untouched). For every queue, size mix and '
+               'limits the block messages and — after the second fix — the presence messages of send_response are non-empty, within '
+               'the limits, and carry exactly what fits, once and in order; with the shipped constants every block <= MAX_BATCH_SIZE and '
+               'every presence is sent. The model is tied to bitswap/mod.rs by differential runs of the hooked functions, of the real '
+               'event loop on in-memory substreams and of two nodes over TCP.',
+ 'level_note': 'Holds for the tree with two `fix:` commits (F-C20a: batches bounded by data bytes only; F-C20b: all presences of a '
+               'response in one unsplit message — in both cases an over-long message was dropped whole; the _insufficient theorems show '
+               'the old code cannot respect a limit, the scaled witnesses in corpus/C20 must now pass). NOT provided by litep2p and '
+               'therefore not claimed: matching of responses to requests. The loop keeps no want set; unsolicited and repeated blocks are '
+               'delivered (C20_only_requested_refuted, C20_no_duplicate_delivery_refuted, confirmed on the real loop); '
+               'C20_only_requested_with_want_filter / C20_no_duplicate_delivery_with_want_filter are about a client-side want set that '
+               'exists only in the model. Also observed, outside the property text: cancel entries of a wantlist are reported as wants; a '
+               'response whose send fails half-way is queued again whole, so blocks already written are written again on the next '
+               'substream; a failed action silently drops every action queued behind it. Trusted: Coq kernel, extraction, harness and '
+               'hooks; hash functions abstract.',
  'assumptions': ['no usize overflow in the size sums',
                  'the receiving peer in the end-to-end stream is litep2p itself',
-                 'block presences are outside the property (they are sent in one unsplit message)']}
+                 'peers of the event-loop stream stay connected (no dial, no connection close)',
+                 'only-requested / at-most-once delivery need a want set on the user side (not in litep2p)']}
